@@ -44,6 +44,7 @@ import (
 
 	"github.com/rs/zerolog"
 
+	"verif/harness/internal/lockfacts"
 	"verif/harness/internal/prng"
 	"verif/harness/internal/proto"
 	"verif/harness/internal/sched"
@@ -640,27 +641,37 @@ func (s *sim) flush() string {
 }
 
 func (s *sim) drain() string {
-	n := 0
+	// StopAll visits every entry of the watch list.  Entries still waiting are released (one Done
+	// each, followed through the gate); an entry that already has its verdict (removal held back) gets
+	// a second Done on the unchanged code: panic on the processor's goroutine, the process dies and
+	// the parent reports it.
+	n, done := 0, 0
 	for _, r := range s.reqs {
-		if r.inMap {
+		if r.inMap && r.waiting {
 			n++
+		} else if r.inMap {
+			done++
 		}
 	}
 	s.cancel()
 	h0 := s.handled
 	var to []*reqRec
 	var bad []string
-	s.lc.Fire()
-	// StopAll signals every entry of the map; a second Done on an entry panics on the processor's
-	// goroutine (the process dies: observed by the parent)
-	if !s.pump(func() bool { return s.handled-h0 >= n }, 5*time.Second, func(r *reqRec) {
+	on := func(r *reqRec) {
 		if r.verdict == "blocked" {
 			to = append(to, r)
 		} else {
 			bad = append(bad, fmt.Sprintf("!%s:%d", r.verdict, r.id))
 		}
-	}) {
+	}
+	s.lc.Fire()
+	if !s.pump(func() bool { return s.handled-h0 >= n }, 5*time.Second, on) {
 		bad = append(bad, "stuck")
+	}
+	if done > 0 {
+		// grace period for the crash (it follows the Fire within microseconds); if the process is
+		// still alive afterwards the entries with a verdict were left alone
+		s.pump(func() bool { return false }, 300*time.Millisecond, on)
 	}
 	if !s.awaitRemovals() {
 		bad = append(bad, "stuck-removal")
@@ -721,6 +732,75 @@ func (s *sim) close() {
 
 var maxLatAll time.Duration
 
+// ---------------------------------------------------------------- lock coverage (atomicity of the model's steps)
+
+const engDir = "proxy/src/services/lunar-engine/"
+
+var lockTargets = map[string]lockfacts.Target{
+	"Request":        {Dir: engDir + "streams/processors/queue", Type: "Request", Pkg: "processorqueue"},
+	"RequestWatcher": {Dir: engDir + "streams/processors/queue", Type: "RequestWatcher", Pkg: "processorqueue"},
+	"memoryQueue":    {Dir: engDir + "streams/lunar-context", Type: "memoryQueue", Pkg: "lunarcontext"},
+}
+
+// lockOp answers `lock s=<struct> f=<field> fn=<method>` with the mutexes of the struct that are
+// syntactically held at EVERY access of the field inside the method (go/ast lockset walk of
+// internal/lockfacts over the source tree the harness was built from): `name:x` exclusive,
+// `name:r` shared, `-` none, `missing` no such access.
+func lockOp(w []string) string {
+	st, ok1 := proto.KV(w, "s")
+	f, ok2 := proto.KV(w, "f")
+	fn, ok3 := proto.KV(w, "fn")
+	tg, ok4 := lockTargets[st]
+	if !(ok1 && ok2 && ok3 && ok4) {
+		return "bad-op"
+	}
+	repo := os.Getenv("VERIF_REPO")
+	if repo == "" {
+		repo = "/repo"
+	}
+	as, err := lockfacts.Extract(repo, tg)
+	if err != nil {
+		return "err:extract"
+	}
+	var held map[string]bool
+	n := 0
+	for _, a := range as {
+		if a.Field != f || a.Func != fn || a.Init {
+			continue
+		}
+		n++
+		cur := map[string]bool{}
+		for _, l := range a.Locks {
+			cur[l.Name] = l.Excl
+		}
+		if held == nil {
+			held = cur
+			continue
+		}
+		for k, ex := range held {
+			ex2, ok := cur[k]
+			if !ok {
+				delete(held, k)
+			} else {
+				held[k] = ex && ex2
+			}
+		}
+	}
+	if n == 0 {
+		return "missing"
+	}
+	var out []string
+	for k, ex := range held {
+		m := "r"
+		if ex {
+			m = "x"
+		}
+		out = append(out, k+":"+m)
+	}
+	sort.Strings(out)
+	return joinOr(out)
+}
+
 // runCase executes the ops of one case, handing each answer to emit as soon as it is known.
 func runCase(ops []string, emit func(string)) {
 	s := &sim{}
@@ -734,6 +814,10 @@ func runCase(ops []string, emit func(string)) {
 		w := strings.Fields(op)
 		if len(w) == 0 {
 			emit("bad-op")
+			continue
+		}
+		if w[0] == "lock" {
+			emit(lockOp(w))
 			continue
 		}
 		if w[0] == "cfg" {
@@ -829,7 +913,7 @@ func runInChild(ops []string) []string {
 	if len(outs) > len(ops) {
 		outs = outs[:len(ops)]
 	}
-	if len(outs) < len(ops) {
+	if len(outs) < len(ops) || err != nil {
 		what := "child-died"
 		if err == nil {
 			what = "child-short"
@@ -849,7 +933,13 @@ func runInChild(ops []string) []string {
 		if os.Getenv("VERIF_DEBUG") != "" {
 			fmt.Fprintln(os.Stderr, errb.String())
 		}
-		outs = append(outs, "panic "+what)
+		// the crash belongs to the last operation that was running: the first unanswered one, or -
+		// when the process died after its last answer (grace period of drain) - the last one
+		at := len(outs)
+		if at >= len(ops) {
+			at = len(ops) - 1
+		}
+		outs = append(outs[:at], "panic "+what)
 		for len(outs) < len(ops) {
 			outs = append(outs, "dead")
 		}
@@ -1142,6 +1232,29 @@ func genWallClock(r *prng.R) []string {
 	return append(ops, "await bound=1450")
 }
 
+// the critical sections the model's atomic steps stand for (same table as `lockTable` in the driver)
+var lockTable = [][3]string{
+	{"Request", "state", "StartProcessing"}, {"Request", "state", "StopProcessing"},
+	{"Request", "state", "SetProcessedSuccess"}, {"Request", "state", "SetProcessedTimeout"},
+	{"Request", "result", "SetProcessedSuccess"}, {"Request", "result", "SetProcessedTimeout"},
+	{"Request", "result", "Wait"},
+	{"RequestWatcher", "requests", "AddRequest"}, {"RequestWatcher", "requests", "RemoveFromWatchList"},
+	{"RequestWatcher", "requests", "GetRequest"}, {"RequestWatcher", "requests", "StopAll"},
+	{"RequestWatcher", "requestsExpireAt", "AddRequest"}, {"RequestWatcher", "requestsExpireAt", "RemoveFromWatchList"},
+	{"RequestWatcher", "requestsExpireAt", "notifyExpiredRequests"},
+	{"RequestWatcher", "requestsExpireAt", "recalculateNextExpireAt"},
+	{"memoryQueue", "queue", "Enqueue"}, {"memoryQueue", "queue", "DequeueIfValueRelevant"},
+	{"memoryQueue", "queue", "Remove"}, {"memoryQueue", "queue", "Size"},
+}
+
+func genLocks() []string {
+	var ops []string
+	for _, t := range lockTable {
+		ops = append(ops, fmt.Sprintf("lock s=%s f=%s fn=%s", t[0], t[1], t[2]))
+	}
+	return ops
+}
+
 func malformed(r *prng.R) []string {
 	switch r.Intn(4) {
 	case 0:
@@ -1165,6 +1278,7 @@ func gen(r *prng.R, f proto.Flags, emit func(proto.Case)) {
 		id++
 		emit(proto.Case{ID: fmt.Sprintf("%s%d", prefix, id), Ops: ops})
 	}
+	add("locks", genLocks())
 	for b := 0; b < f.Budget; b++ {
 		for k := 0; k < nShort; k++ {
 			add("s", genSequential(r.Fork(), false))
